@@ -78,6 +78,9 @@ def configs(tier, seed):
         ("uint32", 1, (1, 2, 2), (2, 2, 2), dict(in_dtype="uint16")),
         ("uint64", 1, (2, 1, 2), (2, 2, 2)),      # ... along y
         ("uint32", 1, (1, 2, 1), (2, 4, 1)),      # ... along x and y, non-cubic block
+        ("uint64", 1, (2, 2, 2), (2, 2, 2), dict(order="F")),       # chunk handed over in Fortran memory order
+        ("uint32", 2, (1, 2, 2), (2, 2, 1), dict(order="F")),
+        ("uint32", 1, (2, 1, 4), (4, 1, 2), dict(order="view")),    # non-contiguous view (every other voxel of a larger buffer)
     ]
     for b in base:
         extra = b[4] if len(b) > 4 else {}
@@ -118,6 +121,18 @@ def _patched():
     return ce, cs
 
 
+def _layout(a, order):
+    """the same values in another memory layout (the encoder must not depend on it)"""
+    if order == "F":
+        return real_np.asfortranarray(a)
+    if order == "view":
+        big = real_np.empty(a.shape[:-1] + (2 * a.shape[-1],), dtype=a.dtype)
+        big[...] = a.ravel()[0]
+        big[..., ::2] = a
+        return big[..., ::2]
+    return a
+
+
 def _prove_all(ctx, eqs, label):
     """one obligation for small chunks, one per voxel for large ones (a conjunction of hundreds of table look-ups is
     much harder for the solver than the look-ups one by one)"""
@@ -155,6 +170,7 @@ def H_roundtrip(ctx, cfg):
         for j in sym_pos:
             ctx.assume(z3.And(z3.UGT(flat[j].e, srt[mid - 3]), z3.ULT(flat[j].e, srt[mid + 2])))
     ctx.input("chunk", [x.e for x in chunk.a.ravel()])
+    chunk = SArray(_layout(chunk.a, cfg.get("order")), chunk.dtype)
     if cfg.get("min_distinct"):
         vals = [x.e for x in chunk.a.ravel()]
         k = cfg["min_distinct"]
@@ -212,6 +228,7 @@ def replay(cfg, cex):
     Z, Y, X = cfg["shape"]
     block = cfg["block"]
     chunk = real_np.array(cex["inputs"]["chunk"], dtype=real_np.uint64).astype(cfg.get("in_dtype", dtype)).reshape(C, Z, Y, X)
+    chunk = _layout(chunk, cfg.get("order"))
     enc = ce.CompressedSegmentationEncoder(dtype, C, block)
     try:
         buf = enc.encode(chunk)
